@@ -12,86 +12,16 @@ import (
 func init() { register("C12", "other", checkC12) }
 
 func checkC12(c *Ctx, r *Report) {
-	r.Explanation = "Decided: (a) the accept/redraw skeleton of GenerateKey: one 32-byte draw per candidate, the only exit of the draw loop is TestPrivateKey(candidate) == 0, a rejected candidate restarts the draw, the returned private key is the tested buffer and the public key is the affine encoding of ScalarBaseMult of that very buffer; (b) every `return 0` of TestPrivateKey is dominated by the zero test and (for 32-byte keys) by `< n-1` with n-1 the folded constant; (c) validated scalars: every call of internal.ScalarBaseMult in package sm2 takes a scalar that is dominated by TestPrivateKey(...) == 0 or by the nonce guards k < n and k != 0; DerivePublic returns an error for every key TestPrivateKey rejects; (d) CheckOnCurve accepts only through both canonical coordinate decoders and Sm2CheckOnCurve(...) == nil, whose two compared field expressions are, as polynomials, y^2 and x^3 - 3x + b with b the resolved curve constant; (e) the slices [1:33] and [33:] of the encoded public key are taken from a 65-byte encoding (the 1-byte infinity encoding is excluded because a validated scalar in [1, n-1] cannot give the point at infinity: G has prime order n). NOT decided: that the returned coordinates equal [d]G as values (C14/C18)."
-	r.Trusted = []string{"go/ssa", "G has prime order n: [d]G is finite for d in [1, n-1]", "io.ReadFull contract"}
+	r.Explanation = "Decided on the outcomes of a path-by-path interpretation in the protocol domain (checker/proto*.go) of GenerateKey (KEYGEN-DRAW: the key is the last full 32-byte draw; KEYGEN-RANGE: 1 <= d <= n-2 follows from the path condition; KEYGEN-PUBLIC: the coordinates are the 32-byte encodings of affine [d]G; KEYGEN-REDRAW; KEYGEN-SOURCE; KEYGEN-ERROR-RESULTS), DerivePublic (DERIVE-RANGE, DERIVE-PUBLIC, DERIVE-ERROR-RESULTS), TestPrivateKey (KEYTEST-ACCEPT / KEYTEST-REJECT: 0 exactly for keys of at most 32 bytes in [1, n-2]) and CheckOnCurve (ONCURVE-ACCEPT: true only after canonical decoding of both coordinates and a successful curve check); plus the curve-equation formula and the decoder inventories shared with C03/C15/C16. NOT decided: the values of [d]G (C14)."
+	r.Trusted = []string{"go/ssa", "G has prime order n: [d]G is finite for d in [1, n-1]", "io.ReadFull contract", "contracts summarised in checker/proto2.go"}
 	p, err := LoadRepo(c.Repo, "amd64")
 	if err != nil {
 		r.Fatalf("%v", err)
 		return
 	}
-	f := NewFolder(p)
-	// (a) GenerateKey
-	if fn := p.MustFunc(r, "sm2.GenerateKey"); fn != nil {
-		var accept []*ssa.Return
-		for _, b := range fn.Blocks {
-			if ret, ok := b.Instrs[len(b.Instrs)-1].(*ssa.Return); ok && isNilConst(retVals(ret)[3]) {
-				accept = append(accept, ret)
-			}
-		}
-		if len(accept) != 1 {
-			r.Viol("SINGLE-ACCEPT", "sm2.GenerateKey", p.Pos(fn.Pos()), fmt.Sprintf("%d returns carry a nil error; exactly one expected", len(accept)))
-		} else {
-			ret := accept[0]
-			ps := newPathSym(p, fn, f)
-			ps.WalkTo(ret.Block())
-			draw := findDrawBlock(p, fn)
-			K := "draw(rand)"
-			// the candidate must be proven to be in [1, n-2]: directly by TestPrivateKey, or by guards inside a draw helper
-			cmpKN1 := xf("ConstantTimeCmp", K, "bytes32(N-1)", "32")
-			cmpK0 := xf("ConstantTimeCompare", K, "zeros(32)")
-			if ps.FindGuard("TestPrivateKey("+K+") == 0") != nil {
-				checkInventory(r, p, ps, "sm2.GenerateKey", p.InstrPos(ret), []guardReq{
-					{"(draw, error)", []string{"err(ReadFull(rand)) == nil"}, "error-loose"}, // the error arm returns the (partially filled) private buffer next to the error; public key results are decided under C19
-					{"(candidate, TestPrivateKey = 0, restart)", []string{"TestPrivateKey(" + K + ") == 0"}, "restart"},
-				}, draw)
-			} else {
-				checkInventory(r, p, ps, "sm2.GenerateKey", p.InstrPos(ret), []guardReq{
-					{"(draw, error)", []string{"err(ReadFull(rand)) == nil"}, "error-loose"}, // the error arm returns the (partially filled) private buffer next to the error; public key results are decided under C19
-					{"(candidate, <, n-1, restart)", []string{cmpKN1 + " < 0", cmpKN1 + " == -1"}, "restart"},
-					{"(candidate, !=, 0, restart)", []string{cmpK0 + " != 1", cmpK0 + " == 0"}, "restart"},
-				}, draw)
-			}
-			enc := xf("SM2Point.Bytes", xf("ScalarBaseMult", K))
-			got := []string{normText(ps.S(retVals(ret)[0])), normText(ps.S(retVals(ret)[1])), normText(ps.S(retVals(ret)[2]))}
-			ok := got[0] == K && got[1] == enc+"[1:33]" && got[2] == enc+"[33:]"
-			r.Check(ok, "KEYPAIR-EXPRESSION", "sm2.GenerateKey", p.InstrPos(ret), fmt.Sprintf("returns (%s); expected (%s, %s[1:33], %s[33:])", strings.Join(got, ", "), K, enc, enc))
-			r.Check(ps.draws == 1, "DRAW-UNIT", "sm2.GenerateKey one draw per candidate", p.InstrPos(ret), fmt.Sprintf("%d draws on the accepting path", ps.draws))
-			if dc, buf := findDraw(p, fn); dc != nil {
-				env := NewLinEnv(p, fn)
-				ls, ok := env.Len(buf)
-				r.Check(ok && len(ls) == 1 && ls[0].IsConst() && ls[0].C == 32, "DRAW-UNIT", "sm2.GenerateKey draws 32 bytes", p.InstrPos(dc), fmt.Sprintf("buffer length %v", linStrs(ls)))
-			}
-		}
-	}
-	// (b)
-	c12TestPrivateKey(r, p, f)
-	// (c) validated scalars + DerivePublic
-	c12ValidatedScalars(r, p, f)
-	// (d) CheckOnCurve
-	if fn := p.MustFunc(r, "sm2.CheckOnCurve"); fn != nil {
-		n := 0
-		for _, b := range fn.Blocks {
-			ret, ok := b.Instrs[len(b.Instrs)-1].(*ssa.Return)
-			if !ok || isFalseConst(retVals(ret)[0]) {
-				continue
-			}
-			n++
-			ps := newPathSym(p, fn, f)
-			ps.WalkTo(b)
-			X, Y := xf("SM2Element.SetBytes", "x"), xf("SM2Element.SetBytes", "y")
-			checkInventory(r, p, ps, "sm2.CheckOnCurve", p.InstrPos(ret), []guardReq{
-				{"(x canonical 32 bytes, error)", []string{"err(" + X + ") == nil"}, "false"},
-				{"(y canonical 32 bytes, error)", []string{"err(" + Y + ") == nil"}, "false"},
-			}, nil)
-			got := ps.S(retVals(ret)[0])
-			r.Check(got == "("+xf("Sm2CheckOnCurve", X, Y)+" == nil)", "VERDICT-EXPRESSION", "sm2.CheckOnCurve", p.InstrPos(ret), "verdict is "+got)
-		}
-		r.Check(n == 1, "SINGLE-ACCEPT", "sm2.CheckOnCurve", p.Pos(fn.Pos()), fmt.Sprintf("%d true-capable returns", n))
-	}
-	c12CurveEquation(r, p, f)
-	c03Decoders(r, p, f)
-	r.Floor("required_guards", 12)
-	r.Floor("scalar_base_mult_calls", 3)
+	protoKeys(r, p)
+	protoDecoders(r, p)
+	r.Floor("protocol_paths", 15)
 }
 
 // c12ValidatedScalars: each call of internal.ScalarBaseMult from package sm2 is dominated by a validation of its argument.
